@@ -221,7 +221,7 @@ def check(ctx):
                 nn = gk.nodes_for(pl)
                 tg = an.targets(kenc, nn[0]) if nn else []
                 is_sv = ast.unparse(pl.func).split(".")[-1] == "SecureValue" or (bool(tg) and all(t.kind == "ctor" for t in tg))
-                if is_sv and pl.args:
+                if is_sv and (pl.args or pl.keywords):
                     payload = pl.args[-1] if len(pl.args) >= 2 else next((kw.value for kw in pl.keywords if kw.arg == "ciphertext"), None)
                     ps = value_sources(kenc, payload, nn[0] if nn else r) if payload is not None else []
                     fresh = bool(ps) and all(k2 == "expr" and isinstance(p2, ast.Call) and isinstance(p2.func, ast.Attribute) and p2.func.attr == "encrypt"
